@@ -69,11 +69,28 @@ def protos_fortran(txt):
     return res
 
 
+def protos_pascal(txt):
+    """cdecl externals:  function Name(a:longint; var n:longint; e:PPxrl_error):double;cdecl;external External_library name 'CName';
+    each argument as [type as written (lower case), passed by reference ("var")?]"""
+    txt = re.sub(r"\{[^}]*\}|//[^\n]*", " ", txt)
+    res = []
+    for m in re.finditer(r"\b(function|procedure)\s+(\w+)\s*(?:\(([^)]*)\))?\s*(?::\s*(\w+))?\s*;\s*cdecl\s*;\s*external\s+\w+\s+name\s+'(\w+)'", txt, flags=re.I):
+        kind, pname, args, ret, cname = m.group(1).lower(), m.group(2), m.group(3) or "", m.group(4) or "", m.group(5)
+        al = []
+        for grp in [g.strip() for g in args.split(";") if g.strip()]:
+            byref = bool(re.match(r"(var|out)\s", grp, flags=re.I)); grp = re.sub(r"^(var|out|const)\s+", "", grp, flags=re.I)
+            if ":" not in grp: al.append(["?", byref]); continue
+            names, typ = grp.rsplit(":", 1)
+            for _ in names.split(","): al.append([typ.strip().lower(), byref])
+        res.append({"name": cname, "pname": pname, "kind": kind, "args": al, "ret": ret.lower()})
+    return res
+
+
 def run(repo, root, out):
     R = lambda *p: open(os.path.join(repo, *p), errors="replace").read()
     b = {}
     b["fortran"] = {"consts": consts_fortran(R("fortran", "xraylib_wrap.F90")), "protos": protos_fortran(R("fortran", "xraylib_wrap.F90") + "\n" + R("fortran", "xraylib_wrap_generated.F90"))}
-    b["pascal"] = {"consts": consts_pascal(R("pascal", "xraylib_const.pas"))}
+    b["pascal"] = {"consts": consts_pascal(R("pascal", "xraylib_const.pas")), "protos": protos_pascal(R("pascal", "xraylib.pas") + "\n" + R("pascal", "xraylib_impl.pas"))}
     idl = []
     for f in ["xraylib.pro", "xraylib_lines.pro", "xraylib_shells.pro", "xraylib_auger.pro", "xraylib_nist_compounds.pro", "xraylib_radionuclides.pro"]:
         idl += consts_idl(R("idl", f))
